@@ -272,6 +272,19 @@ func (x *Exec) Bubble(cfg simrt.Config, body func(s *simrt.Sim) func() bool, aft
 		})
 	}()
 	<-fin
+	// a panic whose innermost frame is harness code is the harness's fault:
+	// infrastructure failure, never a violation
+	var kept []string
+	for _, p := range res.Panics {
+		if panicInHarness(p) {
+			if res.Infra == "" {
+				res.Infra = "harness panic: " + p
+			}
+			continue
+		}
+		kept = append(kept, p)
+	}
+	res.Panics = kept
 	if len(res.Unreg) > 0 && res.Infra == "" {
 		res.Infra = "yield from a goroutine the simulator did not start at " + strings.Join(res.Unreg, ",")
 	}
@@ -640,7 +653,7 @@ func workerMain(t *testing.T) {
 				emit(RunRecord{Kind: "violation", Seed: seed, Scenario: sc.Name, Signature: o.Violation.Signature, Detail: o.Violation.Detail, Replay: name, Known: true})
 				continue
 			}
-			if seenSig[cls] >= 3 || seenSig[o.Violation.Signature] >= 1 { // a few replays per class and worker, one per signature
+			if seenSig[cls] >= envInt("VSIM_CLASS_LIMIT", 3) || seenSig[o.Violation.Signature] >= 1 { // a few replays per class and worker, one per signature
 				sum.Counters["violations_duplicate_class"]++
 				continue
 			}
@@ -743,4 +756,32 @@ func selftestWorker(t *testing.T, emit func(RunRecord), known []KnownFinding, wo
 		}
 	}
 	emit(RunRecord{Kind: "summary", Summary: &WorkerSummary{Runs: runs}})
+}
+
+// panicInHarness reports whether the innermost non-runtime frame of a recorded
+// panic belongs to the harness (verifsim/...) rather than to repository code.
+func panicInHarness(p string) bool {
+	lines := strings.Split(p, "\n")
+	seenPanic := false
+	for _, l := range lines {
+		if strings.HasPrefix(l, "\t") || l == "" {
+			continue
+		}
+		if strings.HasPrefix(l, "panic(") {
+			seenPanic = true
+			continue
+		}
+		if !seenPanic {
+			continue
+		}
+		switch {
+		case strings.HasPrefix(l, "runtime."), strings.HasPrefix(l, "sync."), strings.HasPrefix(l, "internal/"):
+			continue
+		case strings.HasPrefix(l, "verifsim/"):
+			return true
+		default:
+			return false
+		}
+	}
+	return false
 }
